@@ -13,6 +13,14 @@ if [ "${1:-}" = "replay" ]; then
   exec "$bin" replay "$2"
 fi
 id="$1"; tier="${2:-${VERIF_TIER:-quick}}"; shift; shift || true
+# Thorough tier of the arithmetic-heavy rate-limiter checks: additionally run a batch on a build
+# with the *shipped* arithmetic (overflow checks and debug assertions off), where a wrapped
+# refill shows up as a refinement mismatch instead of a panic. Evidence comes from the main run.
+if [ "$tier" = "thorough" ] && { [ "$id" = "C26" ] || [ "$id" = "C28" ]; } && [ -z "${VERIF_SKIP_SHIPPED:-}" ]; then
+  VERIF_PROFILE=shipped "$here/sim/build.sh" >&2 || { echo "HARNESS-ERROR build (shipped profile) failed"; exit 2; }
+  echo "[$id] shipped-arithmetic batch (overflow-checks=off)"
+  "$here/sim/target/shipped/simcheck" check "$id" --tier quick --seed "${VERIF_SEED:-1}" --no-evidence --no-selfcheck "$@" || exit $?
+fi
 extra=()
 [ -n "${VERIF_NO_EVIDENCE:-}" ] && extra+=(--no-evidence)
 exec "$bin" check "$id" --tier "$tier" --seed "${VERIF_SEED:-1}" "${extra[@]}" "$@"
